@@ -50,6 +50,12 @@ Method: abstract interpretation of the function body over SYMBOLIC ARRAYS.
      coefficients of direction d); S is the ghosted size (X+2)(Y+2)(Z+2).
   CHECKS on `Z[rows] = e`: `Z = np.zeros(ghosted size)`, assigned once, rows = interior cell numbers, e has the
      shape of the interior.
+  INERT statements (tinert.py: `print` / `warnings.warn` / `logging` calls and `assert`s on PURE expressions, `pass`,
+     `if <pure>:` over such statements, validation guards `if <pure>: raise E(...)`, assignments to locals that only
+     such statements read) are SKIPPED wherever they stand (function bodies, dispatchers, the properties of `CellProp`);
+     trailing / keyword-only parameters with a default that only inert statements read are ignored.  The test is
+     purely syntactic (closed list of side-effect-free functions, no method call, no store), so a skipped statement
+     cannot write; what was skipped is listed under `_inert` in the status.
   ANY other statement or expression form makes the function `untranslated: <reason>` (no definition is emitted,
   its name is listed in `untranslated`, and the theorem about it in GenEq.lean no longer compiles).
 Trusted (not derived): the array lengths in the leaf table, C-order of `ravel` / `reshape`, `int_range(a, b)` =
@@ -57,6 +63,9 @@ Trusted (not derived): the array lengths in the leaf table, C-order of `ravel` /
 """
 import ast, sys, os, json
 from fractions import Fraction
+
+sys.path.insert(0, os.path.dirname(os.path.abspath(__file__)))
+import tinert                                                  # noqa: E402
 
 AXES = ["x", "y", "z"]
 VAR = {"x": "i", "y": "j", "z": "k"}
@@ -344,12 +353,22 @@ class MeshInfo:
                 return labels[t.left.slice.value] == t.comparators[0].value
             raise Bad(f"property {name}: test {ast.unparse(t)}")
 
+        inert = tinert.analysis(props[0])
+
         def run(body):
             for st in body:
                 if isinstance(st, ast.Expr) and isinstance(st.value, ast.Constant):
                     continue
+                if inert.skip(st):
+                    continue
                 if isinstance(st, ast.If):
-                    return run(st.body if test(st.test) else st.orelse)
+                    try:
+                        taken = test(st.test)
+                    except Bad:
+                        if inert.skip_guard(st):        # a validation guard on a test that is not understood
+                            continue
+                        raise
+                    return run(st.body if taken else st.orelse)
                 if isinstance(st, ast.Return) and isinstance(st.value, ast.Attribute) \
                         and isinstance(st.value.value, ast.Name) and st.value.value.id == "self" \
                         and st.value.attr in PRIV:
@@ -404,6 +423,7 @@ SHADOWED = set()        # every name bound anywhere in the modules parsed so far
 
 def note_module(tree):
     SHADOWED.update(module_bound_names(tree))
+    tinert.register(tree)
     return tree
 
 
@@ -419,10 +439,13 @@ class Interp:
 
     # ---- statements
     def run(self, fn):
+        inert = tinert.analysis(fn)
         for st in fn.body:
             if self.result is not None:
                 raise Bad("statement after return")
             if isinstance(st, ast.Expr) and isinstance(st.value, ast.Constant) and isinstance(st.value.value, str):
+                continue
+            if inert.skip_guard(st):            # inert statement (tinert.py): no effect on the result
                 continue
             st = plain_assign(st)
             if isinstance(st, ast.Assign):
@@ -948,7 +971,7 @@ def dispatcher(tree, name, prefix):
     fn = fns[0]
     par = fn.args.args[0].arg
     out = {}
-    chain = [s for s in fn.body if isinstance(s, ast.If)]
+    chain = [s for s in tinert.live_body(fn) if isinstance(s, ast.If)]
     if len(chain) != 1:
         raise Bad(f"dispatcher {name}: expected one if-chain")
     node = chain[0]
@@ -996,7 +1019,7 @@ def dispatcher(tree, name, prefix):
 
 def translate_volume(mesh, cls):
     fn = mesh.method(cls, "_getCellVolumes", own=True)
-    if [a.arg for a in fn.args.args] != ["self"]:
+    if [a.arg for a in tinert.effective_args(fn).args] != ["self"]:
         raise Bad("signature")
     it = Interp(mesh, cls, None)
     it.cell_numbers()                      # fixes the dimension of the grid
@@ -1010,7 +1033,7 @@ def builder_setup(mesh, tree, name, disp):
     if len(fns) != 1:
         raise Bad("function not found")
     fn = fns[0]
-    a = fn.args
+    a = tinert.effective_args(fn)           # without the extra parameters that only inert statements read
     if len(a.args) != 1 or a.vararg or a.kwarg or a.kwonlyargs or a.defaults:
         raise Bad("signature")
     if name not in disp:
@@ -1096,6 +1119,7 @@ variable {α : Type} [Field α] [LinearOrder α] [IsStrictOrderedRing α]
 
 def generate(repo):
     src = os.path.join(repo, "src", "pyfvtool")
+    tinert.set_repo(repo)
 
     def parse(f):
         return note_module(ast.parse(open(os.path.join(src, f)).read()))
@@ -1154,6 +1178,7 @@ def main():
     repo = os.environ.get("VERIF_REPO", "/repo")
     dst = sys.argv[1]
     text, status = generate(repo)
+    status = tinert.annotate(status)
     write_if_changed(dst, text)
     base = os.path.splitext(os.path.basename(dst))[0].lower()
     write_if_changed(os.path.join(os.path.dirname(os.path.abspath(dst)), f"{base}_status.json"),
